@@ -80,6 +80,31 @@ def exec_between_connections(chk, stack):
                       expected="second connection summarised under second-program", observed=seen[1])
 
 
+def user_per_connection(chk, stack, callers):
+    """the user a record names is that connection's user, whichever users other connections resolved before it"""
+    names = {uid: u["name"] for uid, u in callers.users.items()}
+    pid = callers.procs["curl"]["pid"]
+    seq = [1000, 0, 1000, 1000, 0, 1001, 1000, 1002, 0, 1001]
+    for i, uid in enumerate(seq):
+        stack.ctl("clear")
+        port = stack.fresh_port()
+        stack.ctl("audit %d %d %d %d %s %d" % (port, uid, pid, 1 if uid == 0 else 0, e2e.IMDS[0], e2e.IMDS[1]))
+        try:
+            c = e2e.ClientConn(port, 6.0)
+        except OSError:
+            continue
+        c.request(req_raw("user-%d" % i), b"GET", 6.0)
+        c.close(rst=True)
+        time.sleep(0.03)
+        summ = stack.ctl("conns")
+        users = sorted({vlib.unhx(e.split("|")[0]).decode("utf-8", "replace") for e in summ.split(",") if e and e != "-" and "|" in e})
+        chk.case(nontrivial_key=("user-seq", i, uid, tuple(users)))
+        chk.count("user_sequence_connections")
+        if users != [names[uid]]:
+            chk.violation("a connection was summarised under another connection's user", {"uid_sequence": seq[:i + 1], "this_uid": uid},
+                          expected=[names[uid]], observed=users)
+
+
 def run(chk):
     if not e2e.in_netns():
         e2e.reexec_in_netns()
@@ -249,6 +274,7 @@ def run(chk):
             if left != "-":
                 chk.violation("audit records left behind after all connections were accepted", {"round": rd}, expected="-", observed=left)
         exec_between_connections(chk, stack)
+        user_per_connection(chk, stack, callers)
     finally:
         stack.close()
     chk.coverage["rule"] = ("histories of 4-14 connections over 4 source ports: attributed, direct, immediate port reuse without/with a fresh "
